@@ -19,8 +19,10 @@ from fractions import Fraction
 REPO = sys.argv[1] if len(sys.argv) > 1 else "/repo"
 ROOT = os.path.dirname(os.path.dirname(os.path.abspath(__file__)))
 OUT = os.path.join(ROOT, sys.argv[2]) if len(sys.argv) > 2 else os.path.join(ROOT, "lean/CookModel/Gen/Units.lean")
-TOML = os.path.join(ROOT, sys.argv[3]) if len(sys.argv) > 3 else os.path.join(REPO, "units.toml")
+TOML = os.path.join(ROOT, sys.argv[3]) if len(sys.argv) > 3 and sys.argv[3] != "@repo" else os.path.join(REPO, "units.toml")
 NS = sys.argv[4] if len(sys.argv) > 4 else "Gen"
+# further layers (fraction settings only) stacked on the first file, as `ConverterBuilder::with_units_file` called again
+EXTRA_LAYERS = [os.path.join(ROOT, a) for a in sys.argv[5:]]
 
 QUANTITIES = ["volume", "mass", "length", "temperature", "time"]   # enum order of PhysicalQuantity
 SIPREFIX = ["kilo", "hecto", "deca", "deci", "centi", "milli"]      # enum order of SIPrefix
@@ -284,24 +286,43 @@ def define(h):
             "max_whole": h.get("max_whole", DEF_MAX_WHOLE)}
 
 
-fr = data.get("fractions", {})
-if set(fr) - {"all", "metric", "imperial", "quantity", "unit"}:
-    fail("fractions: unknown keys")
-f_all = helper(fr["all"], "all") if "all" in fr else None
-f_metric = helper(fr["metric"], "metric") if "metric" in fr else None
-f_imperial = helper(fr["imperial"], "imperial") if "imperial" in fr else None
+fr_layers = [data.get("fractions", {})]
+for path in EXTRA_LAYERS:
+    try:
+        extra = tomllib.load(open(path, "rb"), parse_float=Dec)
+    except Exception as e:  # noqa: BLE001
+        fail(f"layer {path} does not parse: {e}")
+    if set(extra) - {"fractions"}:
+        fail(f"layer {path}: only a [fractions] table is supported in a stacked layer")
+    fr_layers.append(extra.get("fractions", {}))
+# three passes over the layers, as `build_fractions_config`: a later layer's group entry REPLACES the earlier one;
+# per-unit entries are resolved last, against the final group settings
+f_all = f_metric = f_imperial = None
 f_quantity = {}
-for q, v in fr.get("quantity", {}).items():
-    if q not in QUANTITIES:
-        fail(f"fractions.quantity: bad quantity {q!r}")
-    f_quantity[q] = helper(v, q)
+for fr in fr_layers:
+    if set(fr) - {"all", "metric", "imperial", "quantity", "unit"}:
+        fail("fractions: unknown keys")
+    if "all" in fr:
+        f_all = helper(fr["all"], "all")
+for fr in fr_layers:
+    if "metric" in fr:
+        f_metric = helper(fr["metric"], "metric")
+    if "imperial" in fr:
+        f_imperial = helper(fr["imperial"], "imperial")
+    for q, v in fr.get("quantity", {}).items():
+        if q not in QUANTITIES:
+            fail(f"fractions.quantity: bad quantity {q!r}")
+        f_quantity[q] = helper(v, q)
 f_unit = {}
-for key, v in fr.get("unit", {}).items():
+for li, fr in enumerate(fr_layers):
+  seen_in_layer = set()
+  for key, v in fr.get("unit", {}).items():
     if key not in index:
         fail(f"fractions.unit: unknown unit {key!r}")
     uid = index[key]
-    if uid in f_unit:
+    if uid in seen_in_layer:
         fail(f"fractions.unit: two keys for the same unit ({key!r}); the result depends on hash-map order")
+    seen_in_layer.add(uid)
     u = units[uid]
     layers = [f_quantity.get(u["pq"]),
               {"metric": f_metric, "imperial": f_imperial}.get(u["system"]) if u["system"] else None,
@@ -336,7 +357,7 @@ def opt_cfg(h):
 
 
 out = ["import CookModel.Num.Units",
-       f"/- GENERATED by /verif/translators/gen_units.py from {'/repo/units.toml' if len(sys.argv) <= 3 else sys.argv[3]} (+ the SI prefix ratios of",
+       f"/- GENERATED by /verif/translators/gen_units.py from {'/repo/units.toml' if len(sys.argv) <= 3 or sys.argv[3] == '@repo' else sys.argv[3]}{''.join(' + layer ' + a for a in sys.argv[5:])} (+ the SI prefix ratios of",
        "   src/convert/units_file.rs and FractionsConfig::default of src/convert/mod.rs). Do not edit. -/",
        f"namespace Cook.{NS}"]
 for uid, u in enumerate(units):
